@@ -17,6 +17,150 @@ Qed.
 Lemma after_atom_sub : forall rest, after_atom rest -> lead_out [42; 47; 43; 45] rest /\ lead_out [33; 61; 62; 60] rest.
 Proof. intros rest H. split; intros b t E Hin; apply (H b t E); cbn in *; tauto. Qed.
 
+(* ---- the arithmetic reading of a parenthesised boolean expression ------------------------------------------------- *)
+Lemma prefixed_name_err_head : forall s b t, Valid (b :: t) -> skip_ws s = b :: t -> b < 128 -> pn_chars_base b = false -> b <> 58 ->
+  is_err (prefixed_name s).
+Proof.
+  intros s b t Hv E Hb Hp H58. unfold prefixed_name. rewrite E.
+  destruct (find_byte 58 (b :: t)) as [colon|] eqn:Ef; [|repeat eexists].
+  destruct (find_byte_spec _ _ _ Ef) as [Hnth Hlt].
+  destruct colon as [|c]; [cbn in Hnth; congruence|].
+  destruct (ascii_byte_bnd (b :: t) (S c) Hv Hlt ltac:(rewrite Hnth; lia)) as [B _].
+  rewrite slice_to_bnd by assumption. cbn [lift bind firstn]. unfold invalid_pn_prefix. cbn [next_char].
+  destruct (N.ltb_spec b 128); [|lia]. rewrite Hp. cbn [negb bind]. repeat eexists.
+Qed.
+
+Lemma operand_bang_err : forall x t, skip_ws x = 33 :: t -> Valid (33 :: t) -> is_err (filter_operand_token x).
+Proof.
+  intros x t E Hv. unfold filter_operand_token, alt. cbn [alt_from].
+  alt_skip (variable_err_b _ _ _ Hv E ltac:(lia) ltac:(lia)).
+  alt_skip (quoted_literal_err _ _ _ E ltac:(lia) ltac:(lia)).
+  alt_skip (numeric_err _ _ _ E ltac:(lia) ltac:(lia) ltac:(lia) ltac:(reflexivity)).
+  alt_skip (iri_err _ _ _ E ltac:(lia)).
+  alt_skip (keyword_fail kw_true _ _ x 33 t eq_refl E ltac:(cbv; discriminate)).
+  alt_skip (keyword_fail kw_false _ _ x 33 t eq_refl E ltac:(cbv; discriminate)).
+  destruct (prefixed_name_err_head x 33 t Hv E ltac:(lia) ltac:(reflexivity) ltac:(lia)) as (? & ? & ? & ->). repeat eexists.
+Qed.
+
+Definition OPS : list N := [33; 61; 62; 60; 38; 124].
+Definition arith_try (pure : bool) (r : res (arith * str)) (F : str) : Prop :=
+  if pure then exists t, r = Ok (t, F)
+  else is_err r \/ exists t F', r = Ok (t, F') /\ lead_in OPS F'.
+Definition arith_paren (pure : bool) (r : res (arith * str)) (F : str) : Prop :=
+  if pure then exists t, r = Ok (t, F) else is_err r.
+
+Lemma lead_in_byte : forall l b x bs, lay_okb l = true -> b < 128 -> is_whitespace b = false -> b <> 35 -> Valid x -> In b bs ->
+  lead_in bs (lay_bytes l ++ b :: x).
+Proof. intros l b x bs Hl Hb Hw H35 Hx Hin. exists b, x. split; [now apply lead_skip|assumption]. Qed.
+
+Lemma paren_arith : forall l e r g F, lay_okb l = true -> lay_okb r = true -> Valid (pr_or e) -> Valid F -> after_atom F ->
+  arith_try (pure_or e) (f_arith g (pr_or e ++ lay_bytes r ++ 41 :: F)) (lay_bytes r ++ 41 :: F) ->
+  arith_paren (pure_or e) (f_arith (S (S (S g))) (lay_bytes l ++ 40 :: pr_or e ++ lay_bytes r ++ 41 :: F)) F.
+Proof.
+  intros l e r g F Hl Hr Ve HF Ha Try. destruct (after_atom_sub _ Ha) as [Ha1 _].
+  assert (V41 : Valid (41 :: F)) by (apply (valid_app [41]); [apply valid_ascii; repeat constructor; lia|assumption]).
+  assert (VR : Valid (lay_bytes r ++ 41 :: F)) by (apply valid_app; [now apply lay_valid|assumption]).
+  assert (VE : Valid (pr_or e ++ lay_bytes r ++ 41 :: F)) by now apply valid_app.
+  cbn [f_arith f_product f_operand]. rewrite lead_skip by (try assumption; try lia; reflexivity). rewrite strip1_some.
+  unfold arith_try, arith_paren in *. destruct (pure_or e).
+  - destruct Try as (t & ->). cbn [bind]. unfold schar. rewrite lead_skip by (try assumption; try lia; reflexivity). rewrite N.eqb_refl. cbn [bind].
+    rewrite product_loop_stop by (intros b t0 E Hin; apply (Ha1 b t0 E); cbn in *; tauto). cbn [bind].
+    rewrite arith_loop_stop by (intros b t0 E Hin; apply (Ha1 b t0 E); cbn in *; tauto). eauto.
+  - destruct Try as [(k & l0 & e0 & ->)|(t & F' & -> & (b & t0 & E & Hin))]; [cbn [bind]; repeat eexists|].
+    cbn [bind]. unfold schar. rewrite E. destruct (N.eqb_spec b 41) as [->|_]; [cbn in Hin; lia|]. cbn [bind]. repeat eexists.
+Qed.
+
+Lemma sz_atom_ge2 : forall a, (2 <= sz_atom a)%nat.
+Proof. destruct a; cbn [sz_atom]; lia. Qed.
+
+Lemma bool_arith :
+  (forall a g F, (sz_atom a <= S g)%nat -> wf_atom a F = true -> hd_atom a = true -> Valid F -> after_atom F ->
+     arith_try (pure_atom a) (f_arith g (pr_atom a ++ F)) F) /\
+  (forall x g F, (sz_and x <= S g)%nat -> wf_and x F = true -> hd_and x = true -> Valid F -> after_atom F ->
+     arith_try (pure_and x) (f_arith g (pr_and x ++ F)) F) /\
+  (forall o g F, (sz_or o <= S g)%nat -> wf_or o F = true -> hd_or o = true -> Valid F -> after_atom F ->
+     arith_try (pure_or o) (f_arith g (pr_or o ++ F)) F).
+Proof.
+  apply bool_mutind.
+  - (* ! atom: no operand starts with `!` *)
+    intros l a _ g F Hf H _ HF Ha. cbn [sz_atom wf_atom pr_atom pure_atom] in *. pose proof (sz_atom_ge2 a).
+    destruct g as [|[|[|g3]]]; try lia. apply andb_true_iff in H. destruct H as [Hl Hw].
+    assert (Va : Valid (33 :: pr_atom a ++ F)).
+    { apply (valid_app [33]); [apply valid_ascii; repeat constructor; lia|]. apply valid_app; [eapply (proj1 atom_valid_mut); eassumption|assumption]. }
+    left. rewrite <- app_assoc. cbn [app f_arith f_product f_operand].
+    assert (Esk : skip_ws (lay_bytes l ++ 33 :: pr_atom a ++ F) = 33 :: pr_atom a ++ F).
+    { apply lead_skip; try assumption; try lia; try reflexivity. now destruct (valid_ascii_head _ _ Va ltac:(lia)) as (_ & _ & ?). }
+    rewrite Esk. rewrite strip1_none by lia.
+    assert (Eid : skip_ws (33 :: pr_atom a ++ F) = 33 :: pr_atom a ++ F) by (apply skip_ws_fixed; [assumption|apply ascii_head_not_layout; [lia|reflexivity|lia]]).
+    destruct (operand_bang_err _ _ Eid Va) as (? & ? & ? & ->). cbn [bind]. repeat eexists.
+  - (* function call: excluded *)
+    intros kl fn kwtxt lp a1 amore rp g F _ _ Hh. cbn [hd_atom] in Hh. discriminate.
+  - (* comparison: the left side is read, then an operator follows *)
+    intros s1 ol op s2 g F Hf H _ HF Ha. cbn [sz_atom wf_atom pr_atom pure_atom] in *.
+    repeat (apply andb_true_iff in H; destruct H as [H ?]).
+    match goal with X : cmp_opb op = true |- _ => rename X into Hop end.
+    match goal with X : lay_okb ol = true |- _ => rename X into Hol end.
+    match goal with X : wf_sum s2 F = true |- _ => rename X into Hw2 end.
+    set (R1 := lay_bytes ol ++ op ++ pr_sum s2 ++ F) in *.
+    assert (V2 : Valid (pr_sum s2 ++ F)) by (apply valid_app; [eapply (proj1 (proj2 arith_valid)); eassumption|assumption]).
+    assert (VR1 : Valid R1) by (unfold R1; apply valid_app; [now apply lay_valid|apply valid_app; [now apply cmp_valid|assumption]]).
+    assert (E0 : (pr_sum s1 ++ lay_bytes ol ++ op ++ pr_sum s2) ++ F = pr_sum s1 ++ R1) by (unfold R1; now rewrite <- !app_assoc).
+    rewrite E0. right. exists (tr_sum s1), R1. split.
+    + apply sum_roundtrip; [lia|assumption|assumption|]. unfold R1. now apply cmp_lead_out.
+    + unfold R1, cmp_opb in *. assert (V1 : forall c, c < 128 -> Valid (c :: pr_sum s2 ++ F)) by (intros c Hc; apply (valid_app [c]); [apply valid_ascii; repeat constructor; assumption|assumption]).
+      assert (V61 : Valid (61 :: pr_sum s2 ++ F)) by (apply V1; lia).
+      assert (V161 : forall c, c < 128 -> Valid (c :: 61 :: pr_sum s2 ++ F)) by (intros c Hc; apply (valid_app [c]); [apply valid_ascii; repeat constructor; assumption|assumption]).
+      repeat (apply orb_true_iff in Hop; destruct Hop as [Hop|Hop]); apply str_eqb_eq in Hop; subst op; cbn [app];
+        (apply lead_in_byte; [assumption|lia|reflexivity|lia| |unfold OPS; cbn; tauto]); first [assumption | apply V1; lia].
+  - (* bare arithmetic *)
+    intros s g F Hf H _ HF Ha. cbn [sz_atom wf_atom pr_atom pure_atom] in *. destruct (after_atom_sub _ Ha) as [Ha1 _].
+    repeat (apply andb_true_iff in H; destruct H as [H ?]). exists (tr_sum s). apply sum_roundtrip; [lia|assumption|assumption|assumption].
+  - (* nested parentheses *)
+    intros l e IH r g F Hf H Hh HF Ha. cbn [sz_atom wf_atom pr_atom pure_atom hd_atom] in *.
+    repeat (apply andb_true_iff in H; destruct H as [H ?]).
+    match goal with X : wf_or e _ = true |- _ => rename X into He end.
+    match goal with X : lay_okb r = true |- _ => rename X into Hr end.
+    destruct g as [|[|[|g3]]]; try lia.
+    assert (V41 : Valid (41 :: F)) by (apply (valid_app [41]); [apply valid_ascii; repeat constructor; lia|assumption]).
+    assert (VR : Valid (lay_bytes r ++ 41 :: F)) by (apply valid_app; [now apply lay_valid|assumption]).
+    assert (AR : after_atom (lay_bytes r ++ 41 :: F)) by (apply lead_out_byte; try assumption; try lia; try reflexivity; cbn; lia).
+    pose proof (IH g3 _ ltac:(lia) He Hh VR AR) as Try.
+    assert (E0 : (lay_bytes l ++ 40 :: pr_or e ++ lay_bytes r ++ [41]) ++ F = lay_bytes l ++ 40 :: pr_or e ++ lay_bytes r ++ 41 :: F).
+    { repeat first [rewrite <- app_assoc | progress cbn [app]]. reflexivity. }
+    rewrite E0. pose proof (paren_arith l e r g3 F H Hr (proj2 (proj2 atom_valid_mut) e _ He) HF Ha Try) as P.
+    unfold arith_paren, arith_try in *. destruct (pure_or e); [exact P|now left].
+  - (* single atom *)
+    intros a IH g F Hf H Hh HF Ha. cbn [sz_and wf_and pr_and pure_and hd_and] in *. apply IH; try assumption. lia.
+  - (* x && a: never a pure arithmetic expression *)
+    intros x IHx l a _ g F Hf H Hh HF Ha. cbn [sz_and wf_and pr_and pure_and hd_and] in *.
+    repeat (apply andb_true_iff in H; destruct H as [H ?]).
+    match goal with X : wf_and x _ = true |- _ => rename X into Hwx end.
+    match goal with X : wf_atom a _ = true |- _ => rename X into Hwa end.
+    assert (VA : Valid (pr_atom a ++ F)) by (apply valid_app; [eapply (proj1 atom_valid_mut); eassumption|assumption]).
+    assert (V38 : Valid (38 :: pr_atom a ++ F)) by (apply (valid_app [38]); [apply valid_ascii; repeat constructor; lia|assumption]).
+    assert (V3838 : Valid (38 :: 38 :: pr_atom a ++ F)) by (apply (valid_app [38]); [apply valid_ascii; repeat constructor; lia|assumption]).
+    assert (VR : Valid (lay_bytes l ++ 38 :: 38 :: pr_atom a ++ F)) by (apply valid_app; [now apply lay_valid|assumption]).
+    rewrite <- !app_assoc. cbn [app].
+    pose proof (IHx g _ ltac:(lia) Hwx Hh VR ltac:(apply lead_out_byte; try assumption; try lia; try reflexivity; cbn; lia)) as Try.
+    unfold arith_try in *. destruct (pure_and x); [|exact Try]. destruct Try as (t & ->). right. eexists _, _. split; [reflexivity|].
+    apply lead_in_byte; try assumption; try lia; try reflexivity. unfold OPS. cbn. tauto.
+  - (* single conjunction *)
+    intros x IH g F Hf H Hh HF Ha. cbn [sz_or wf_or pr_or pure_or hd_or] in *. apply IH; try assumption. lia.
+  - (* o || x *)
+    intros o IHo l x _ g F Hf H Hh HF Ha. cbn [sz_or wf_or pr_or pure_or hd_or] in *.
+    repeat (apply andb_true_iff in H; destruct H as [H ?]).
+    match goal with X : wf_or o _ = true |- _ => rename X into Hwo end.
+    match goal with X : wf_and x _ = true |- _ => rename X into Hwx end.
+    assert (VA : Valid (pr_and x ++ F)) by (apply valid_app; [eapply (proj1 (proj2 atom_valid_mut)); eassumption|assumption]).
+    assert (V1 : Valid (124 :: pr_and x ++ F)) by (apply (valid_app [124]); [apply valid_ascii; repeat constructor; lia|assumption]).
+    assert (V2 : Valid (124 :: 124 :: pr_and x ++ F)) by (apply (valid_app [124]); [apply valid_ascii; repeat constructor; lia|assumption]).
+    assert (VR : Valid (lay_bytes l ++ 124 :: 124 :: pr_and x ++ F)) by (apply valid_app; [now apply lay_valid|assumption]).
+    rewrite <- !app_assoc. cbn [app].
+    pose proof (IHo g _ ltac:(lia) Hwo Hh VR ltac:(apply lead_out_byte; try assumption; try lia; try reflexivity; cbn; lia)) as Try.
+    unfold arith_try in *. destruct (pure_or o); [|exact Try]. destruct Try as (t & ->). right. eexists _, _. split; [reflexivity|].
+    apply lead_in_byte; try assumption; try lia; try reflexivity. unfold OPS. cbn. tauto.
+Qed.
+
 Lemma bool_rt :
   (forall a fuel rest, (sz_atom a <= fuel)%nat -> wf_atom a rest = true -> Valid rest -> after_atom rest ->
      f_atom fuel (pr_atom a ++ rest) = Ok (tr_atom a, rest)) /\
@@ -117,8 +261,43 @@ Proof.
     { unfold f_comparison. rewrite Eid, Ar. cbn [bind]. rewrite slice_prefix by assumption. cbn [bind].
       destruct (filter_operator_err rest Ha2) as (k2 & l2 & e2 & Eo). rewrite Eo. cbn [bind]. repeat eexists. }
     destruct Cmp as (k3 & l3 & e3 & Ec). rewrite Ec. cbn [orelse]. rewrite Ar. reflexivity.
-  - (* parenthesised: excluded by wf *)
-    intros l e IH r fuel rest Hf H. cbn [wf_atom] in H. discriminate.
+  - (* parenthesised boolean expression: the arithmetic readings fail, then `(` f_or `)` *)
+    intros l e IH r fuel rest Hf H Hr Ha. cbn [wf_atom pr_atom tr_atom sz_atom] in *. destruct fuel as [|f]; [lia|].
+    destruct (after_atom_sub _ Ha) as [Ha1 Ha2].
+    repeat (apply andb_true_iff in H; destruct H as [H ?]).
+    match goal with X : wf_or e _ = true |- _ => rename X into He end.
+    match goal with X : hd_or e = true |- _ => rename X into Hh end.
+    match goal with X : lay_okb r = true |- _ => rename X into Hrp end.
+    pose proof (proj2 (proj2 atom_valid_mut) e _ He) as Ve.
+    assert (V41 : Valid (41 :: rest)) by (apply (valid_app [41]); [apply valid_ascii; repeat constructor; lia|assumption]).
+    assert (VR : Valid (lay_bytes r ++ 41 :: rest)) by (apply valid_app; [now apply lay_valid|assumption]).
+    assert (AR : after_atom (lay_bytes r ++ 41 :: rest)) by (apply lead_out_byte; try assumption; try lia; try reflexivity; cbn; lia).
+    assert (VE : Valid (pr_or e ++ lay_bytes r ++ 41 :: rest)) by now apply valid_app.
+    set (X := 40 :: pr_or e ++ lay_bytes r ++ 41 :: rest).
+    assert (VX : Valid X) by (apply (valid_app [40]); [apply valid_ascii; repeat constructor; lia|assumption]).
+    assert (E0 : (lay_bytes l ++ 40 :: pr_or e ++ lay_bytes r ++ [41]) ++ rest = lay_bytes l ++ X).
+    { unfold X. repeat first [rewrite <- app_assoc | progress cbn [app]]. reflexivity. }
+    assert (Eid : skip_ws X = X) by (apply skip_ws_fixed; [assumption|apply ascii_head_not_layout; [lia|reflexivity|lia]]).
+    assert (Hkw : kw_free_text fn_kws X = true) by reflexivity.
+    assert (Cmp : is_err (f_comparison f X)).
+    { unfold f_comparison. rewrite Eid. destruct f as [|[|[|g3]]]; try lia.
+      pose proof (proj2 (proj2 bool_arith) e g3 _ ltac:(lia) He Hh VR AR) as Try.
+      pose proof (paren_arith [] e r g3 rest eq_refl Hrp Ve Hr Ha Try) as P. cbn [lay_bytes flat_map app] in P. fold X in P.
+      unfold arith_paren in P. destruct (pure_or e).
+      - destruct P as (t & ->). cbn [bind].
+        assert (EX : X = (40 :: pr_or e ++ lay_bytes r ++ [41]) ++ rest) by (unfold X; repeat first [rewrite <- app_assoc | progress cbn [app]]; reflexivity).
+        rewrite EX at 1 2. rewrite slice_prefix; [|apply (valid_app [40]); [apply valid_ascii; repeat constructor; lia|apply valid_app; [assumption|apply valid_app; [now apply lay_valid|apply valid_ascii; repeat constructor; lia]]]|assumption].
+        cbn [bind]. destruct (filter_operator_err rest Ha2) as (k2 & l2 & e2 & ->). cbn [bind]. repeat eexists.
+      - destruct P as (k2 & l2 & e2 & ->). cbn [bind]. repeat eexists. }
+    assert (Esk : skip_ws (lay_bytes l ++ X) = X) by (unfold X; apply lead_skip; try assumption; try lia; reflexivity).
+    cbn [f_atom]. rewrite E0, Esk.
+    assert (E33 : strip_prefix [33] X = None) by (apply strip1_none; lia). rewrite E33.
+    destruct (f_function_err f X VX Eid Hkw) as (k1 & l1 & e1 & ->). cbn [orelse].
+    destruct Cmp as (k3 & l3 & e3 & ->). cbn [orelse]. unfold X at 1. rewrite strip1_some.
+    rewrite (IH f _ ltac:(lia) He VR AR) by (apply no_op2_byte; try assumption; try lia; reflexivity).
+    pose proof (c_or_sz e). destruct (f - c_or e)%nat as [|g] eqn:Eg; [lia|].
+    rewrite or_loop_stop by (apply no_op2_byte; try assumption; try lia; reflexivity). cbn [bind].
+    unfold schar. rewrite lead_skip by (try assumption; try lia; reflexivity). rewrite N.eqb_refl. reflexivity.
   - (* single atom *)
     intros a IH fuel rest Hf H Hr Ha. cbn [wf_and pr_and tr_and sz_and c_and] in *. destruct fuel as [|f]; [lia|].
     cbn [f_and]. rewrite (IH f rest ltac:(lia) H Hr Ha). cbn [bind]. replace (S f - 1)%nat with f by lia. reflexivity.
